@@ -82,15 +82,15 @@ def effectiveTract (attrs : Attrs) (kw : TractKw) : Tract.ParseArgs :=
     depth := { qqMin := mn, qqMax := mx, qqDepth := kw.qqDepth, breakHalves := bh } }
 
 /-- `Tract.parse(commit, **kw)`; returns (object, returned lots+qqs) -/
-def tractParseMethod (t : TractObj) (commit : Bool) (kw : TractKw) : Except PyErr (TractObj × List Str) := do
-  let args := effectiveTract t.attrs kw
-  let r ← Tract.tractParse t.desc args t.fl
-  let ret := r.lots ++ r.qqs
-  if commit then
-    return ({ t with parseComplete := true, lots := r.lots, qqs := r.qqs, lotAcres := r.lotAcres,
-                     aliquotsWhole := r.aliquotsWhole, fl := r.flags, ppDesc := r.text,
-                     diverged := t.diverged || r.diverged }, ret)
-  else return ({ t with diverged := t.diverged || r.diverged }, ret)
+def tractParseMethod (t : TractObj) (commit : Bool) (kw : TractKw) : Except PyErr (TractObj × List Str) :=
+  match Tract.tractParse t.desc (effectiveTract t.attrs kw) t.fl with
+  | .error e => .error e
+  | .ok r =>
+    if commit then
+      .ok ({ t with parseComplete := true, lots := r.lots, qqs := r.qqs, lotAcres := r.lotAcres,
+                    aliquotsWhole := r.aliquotsWhole, fl := r.flags, ppDesc := r.text,
+                    diverged := t.diverged || r.diverged }, r.lots ++ r.qqs)
+    else .ok ({ t with diverged := t.diverged || r.diverged }, r.lots ++ r.qqs)
 
 def tractPreprocess (t : TractObj) (cleanQQ : Option Bool) (commit : Bool) : TractObj × Str :=
   let c := cleanQQ.getD (getB t.attrs "clean_qq")
@@ -98,20 +98,26 @@ def tractPreprocess (t : TractObj) (cleanQQ : Option Bool) (commit : Bool) : Tra
   | some p => (if commit then { t with ppDesc := p } else t, p)
   | none => ({ t with diverged := true }, t.desc)
 
+/-- the tail of `Tract.__init__`: parse now if `parse_qq`, else only preprocess -/
+def tractInitCore (t : TractObj) : Except PyErr TractObj :=
+  if getB t.attrs "parse_qq" then
+    match tractParseMethod t true {} with
+    | .error e => .error e
+    | .ok r => .ok r.1
+  else .ok (tractPreprocess t none true).1
+
+def tractInitAttrs (c : Cfg) (parseQQ : Option Bool) : Attrs :=
+  let attrs := applyConfig tractDefaults Gen.TRACT_ATTRIBUTES c
+  match parseQQ with | some b => attrs.set "parse_qq" (.b b) | none => attrs
+
 /-- `Tract(desc, trs, config, parse_qq, source, orig_desc, orig_index)` for str/None `trs` -/
 def tractInit (uid : Nat) (desc : Str) (trs : Option Str) (config : CfgArg) (parseQQ : Option Bool)
-    (source : OptStr) (origDesc : OptStr) (origIndex : Int) : Except PyErr TractObj := do
-  let d := TRS.trsToDict trs
-  let c ← resolveCfgArg config
-  let attrs := applyConfig tractDefaults Gen.TRACT_ATTRIBUTES c
-  let attrs := match parseQQ with | some b => attrs.set "parse_qq" (.b b) | none => attrs
-  let t : TractObj := { uid := uid, trs := d, desc := desc, origDesc := origDesc, origIndex := origIndex,
-                        source := source, attrs := attrs, config := c, ppDesc := desc }
-  if getB attrs "parse_qq" then
-    let (t', _) ← tractParseMethod t true {}
-    return t'
-  else
-    return (tractPreprocess t none true).1
+    (source : OptStr) (origDesc : OptStr) (origIndex : Int) : Except PyErr TractObj :=
+  match resolveCfgArg config with
+  | .error e => .error e
+  | .ok c =>
+    tractInitCore { uid := uid, trs := TRS.trsToDict trs, desc := desc, origDesc := origDesc, origIndex := origIndex,
+                    source := source, attrs := tractInitAttrs c parseQQ, config := c, ppDesc := desc }
 
 /-! ### PLSSParser -/
 
@@ -150,6 +156,34 @@ def quickDescShort (t : TractObj) (maxLen : Nat := 30) : Str :=
 
 def optI (o : Option Int) : Option CV := o.map CV.i
 
+/-- what `construct_tracts` feeds to `Tract(...)`, one entry per tract: (desc, trs, sec_within) -/
+def tractSpecs (cleanUp : Bool) : List Component → Except PyErr (List (Str × Str × Bool))
+  | [] => .ok []
+  | comp :: rest =>
+    let desc := if cleanUp then cleanupDesc comp.desc else comp.desc
+    -- `for sec in tract_data['sec']` raises TypeError on None; a None twprge is formatted as 'None'
+    match comp.sec with
+    | none => .error PyErr.typeError
+    | some secs =>
+      match tractSpecs cleanUp rest with
+      | .error e => .error e
+      | .ok more => .ok (secs.map (fun sec => (desc, optStrPy comp.twprge ++ sec, comp.secWithin)) ++ more)
+
+/-- build the Tract objects, numbering them in creation order from `idx` -/
+def buildTracts (uid0 : Nat) (handedDown : Str) (parseQQ : Bool) (source : OptStr) (text : Str) :
+    Nat → List (Str × Str × Bool) → Except PyErr (List TractObj)
+  | _, [] => .ok []
+  | idx, (desc, trs, _) :: rest =>
+    match tractInit (uid0 + idx) desc (some trs) (.text handedDown) (some parseQQ) source (some text) idx with
+    | .error e => .error e
+    | .ok t =>
+      match buildTracts uid0 handedDown parseQQ source text (idx + 1) rest with
+      | .error e => .error e
+      | .ok ts => .ok (t :: ts)
+
+def secWithinIndexes (specs : List (Str × Str × Bool)) : List Nat :=
+  (List.range specs.length).filter (fun i => match specs[i]? with | some s => s.2.2 | none => false)
+
 def plssParser (mc : MC) (uid0 : Nat) (text : Str) (a : ParserArgs) : Except PyErr ParserOut := do
   -- handed-down config
   let hd0 : Str := if a.parseQQ then a.handedDownConfig ++ S ",parse_qq" else a.handedDownConfig
@@ -180,19 +214,10 @@ def plssParser (mc : MC) (uid0 : Nat) (text : Str) (a : ParserArgs) : Except PyE
     let (cs, un) := rebuildSecWithin parent.comps parent.unused Gen.MIN_REPORTABLE_UNUSED_LEN
     parent := { parent with comps := cs, unused := un }
   -- construct_tracts
-  let mut tracts : List TractObj := []
-  let mut next : Nat := 0
-  let mut secWithinIdx : List Nat := []
-  for comp in parent.comps do
-    let desc := if cleanUp then cleanupDesc comp.desc else comp.desc
-    -- `for sec in tract_data['sec']` raises TypeError on None; a None twprge is formatted as 'None'
-    let secs ← match comp.sec with | some l => pure l | none => throw PyErr.typeError
-    for sec in secs do
-      let trs := optStrPy comp.twprge ++ sec
-      let t ← tractInit (uid0 + next) desc (some trs) (.text handedDown) (some a.parseQQ) a.source (some text) next
-      tracts := tracts ++ [t]
-      if comp.secWithin then secWithinIdx := secWithinIdx ++ [next]
-      next := next + 1
+  let specs ← tractSpecs cleanUp parent.comps
+  let mut tracts ← buildTracts uid0 handedDown a.parseQQ a.source text 0 specs
+  let next := specs.length
+  let secWithinIdx := secWithinIndexes specs
   fl := parent.fl
   -- examine_unused
   for u in parent.unused do
